@@ -39,6 +39,7 @@ EXTENDS HashRingOps, TLC
 
 CONSTANTS Shape,      \* which node universe (below)
           R, P,       \* replicas per node, number of positions (every position is also a key)
+          WithUpd,    \* BOOLEAN: histories contain address updates (FALSE: add/remove only, a smaller space)
           Dev         \* "none" | "bisect_right" | "sort_pos_only" | "stale_ring" | "no_wrap" | "mod_n"
                       \* | "stale_ring_on_same_host"
 
@@ -48,6 +49,7 @@ NodeDefs ==
     CASE Shape = "n2" -> <<Nd(<<1>>, <<>>), Nd(<<1>>, <<1>>)>>
       [] Shape = "n3" -> <<Nd(<<1>>, <<1>>), Nd(<<2>>, <<>>), Nd(<<1>>, <<>>)>>
       [] Shape = "n4" -> <<Nd(<<2>>, <<1>>), Nd(<<1>>, <<1>>), Nd(<<1, 1>>, <<>>), Nd(<<1>>, <<>>)>>
+      [] Shape = "n5" -> <<Nd(<<1>>, <<>>), Nd(<<1>>, <<1>>), Nd(<<1>>, <<2>>), Nd(<<2>>, <<>>), Nd(<<2>>, <<1>>)>>
       [] Shape = "n4i" -> <<Nd(<<1>>, <<2>>), Nd(<<1>>, <<1, 1>>), Nd(<<1>>, <<1>>), Nd(<<1>>, <<>>)>>
 N == Len(NodeDefs)
 NodeIds == 1..N
@@ -120,7 +122,7 @@ Upd(i, n) ==
 
 Next == \/ \E n \in NodeIds : Add(n)
         \/ \E i \in DOMAIN dests : Del(i)
-        \/ \E i \in DOMAIN dests : \E n \in NodeIds : Upd(i, n)
+        \/ WithUpd /\ \E i \in DOMAIN dests : \E n \in NodeIds : Upd(i, n)
 Spec == Init /\ [][Next]_vars
 
 \* ---------------------------------------------------------------- properties
